@@ -49,3 +49,56 @@ def crashAt (d : Disk) (ops : List Op) (k j : Nat) : Disk :=
 def holds (complete : Bytes → Prop) (x : Option Bytes) : Prop := ∃ b, x = some b ∧ complete b
 
 end Cv.FS
+
+/-
+  The second replacement protocol: the state file a multiple-walker metadynamics bias publishes for its peers
+  (`colvarbias_meta::write_replica_state_file`, colvarbias_meta.cpp 2019–2045) has no `.old` copy; it is written to
+  `<file>.tmp` and renamed over the previous file **after** the temporary file is closed:
+
+      remove(tmp) ; open(tmp, truncate) ; write chunk* ; close(tmp) ; rename(tmp, file)
+
+  Bytes handed to the stream reach the disk at the latest when the stream is closed; the model writes them at the
+  `write` operations, all of which precede `close`.
+-/
+namespace Cv.FS
+
+/-- the published file and its temporary -/
+structure PDisk where
+  pub : Option Bytes
+  tmp : Option Bytes
+deriving Repr, DecidableEq
+
+inductive POp where
+  | removeTmp
+  | openTmp
+  | writeTmp (b : Bytes)
+  | closeTmp
+  | publish              -- `rename(tmp, file)`: atomic, replaces the file
+deriving Repr
+
+def pstep (d : PDisk) : POp → PDisk
+  | .removeTmp => { d with tmp := none }
+  | .openTmp => { d with tmp := some [] }
+  | .writeTmp b => { d with tmp := some ((d.tmp.getD []) ++ b) }
+  | .closeTmp => d
+  | .publish => match d.tmp with
+    | some b => { pub := some b, tmp := none }
+    | none => d
+
+def prun (d : PDisk) (ops : List POp) : PDisk := ops.foldl pstep d
+
+def publishOps (chunks : List Bytes) : List POp :=
+  [.removeTmp, .openTmp] ++ chunks.map .writeTmp ++ [.closeTmp, .publish]
+
+def pcrashAt (d : PDisk) (ops : List POp) (k j : Nat) : PDisk :=
+  let d' := prun d (ops.take k)
+  match ops[k]? with
+  | some (.writeTmp b) => pstep d' (.writeTmp (b.take j))
+  | _ => d'
+
+/-- the order a well-meant "rename only when written in full" produces when the rename is put before the close and the
+    bytes are still in the stream's buffer: they reach the disk after the file has been published -/
+def publishEarlyOps (chunks : List Bytes) : List POp :=
+  [.removeTmp, .openTmp, .publish] ++ chunks.map .writeTmp ++ [.closeTmp]
+
+end Cv.FS
